@@ -27,7 +27,20 @@ async def party_main(world, p, prog, case):
             continue
         if opn == 'output_now':
             recv_ = sorted({r % m for r in pr['receivers']})
-            now[out] = await rt.output(a[0], receivers=recv_)
+            if len(a) > 1:
+                now[out] = await rt.output(list(a), receivers=recv_)      # several floats in one output
+            else:
+                now[out] = await rt.output(a[0], receivers=recv_)
+            continue
+        if opn == 'output_pair':
+            # two secure float outputs in flight at the same time (each has a significand and an exponent stage)
+            import asyncio
+            rcv = [None if r is None else sorted({q % m for q in r}) for r in pr['receivers']]
+            f1 = rt.output(a[0], receivers=rcv[0])
+            for _ in range(pr.get('yields', 0)):
+                await asyncio.sleep(0)
+            f2 = rt.output(a[1], receivers=rcv[1])
+            now[out] = [await f1, await f2]
             continue
         if opn == 'input':
             s = pr['sender'] % m
@@ -100,7 +113,7 @@ def reference(prog):
     u = Fr(1, 1 << (prog['type']['s'] - 1))
     env_ = {}
     for opn, out, args, pr in prog['stmts']:
-        if opn in ('quiesce', 'output_now'):
+        if opn in ('quiesce', 'output_now', 'output_pair'):
             continue
         a = [env_[v] for v in args]
         if opn in ('input', 'const'):
@@ -199,19 +212,31 @@ def judge(fam, case, cfg, w, res):
         pr['flt_' + st[0]] = pr.get('flt_' + st[0], 0) + 1
     # mid-program outputs to a subset (C19): receivers got the value, the others None
     for st in prog['stmts']:
+        if st[0] not in ('output_now', 'output_pair'):
+            continue
+        k = len(st[2])
         if st[0] == 'output_now':
-            Rw = {r % m for r in st[3]['receivers']}
-            iv = env_[st[2][0]]
-            for p in w.parties:
-                if p.result is None:
-                    continue
-                g = p.result.get('now', {}).get(st[1])
-                if p.pid in Rw:
-                    if g is None or not (iv[0] <= Fr(g) <= iv[1]):
-                        res.violations.append(('wrong-value', f'party {p.pid}: output to subset gave {g!r}, allowed [{float(iv[0])!r}, {float(iv[1])!r}]'))
+            Rws = [{r % m for r in st[3]['receivers']}] * k
+        else:
+            Rws = [set(range(m)) if r is None else {q % m for q in r} for r in st[3]['receivers']]
+        for p in w.parties:
+            if p.result is None:
+                continue
+            g = p.result.get('now', {}).get(st[1])
+            gs = g if (k > 1 or st[0] == 'output_pair') else [g]
+            if not isinstance(gs, list) or len(gs) != k:
+                gs = [gs] * k if gs is None else gs
+            for j in range(k):
+                iv = env_[st[2][j]]
+                gj = gs[j] if isinstance(gs, list) and j < len(gs) else None
+                if isinstance(gj, list):
+                    gj = gj[0] if gj else None
+                if p.pid in Rws[j]:
+                    if gj is None or not (iv[0] <= Fr(gj) <= iv[1]):
+                        res.violations.append(('wrong-value', f'party {p.pid}: {st[0]} #{j} gave {gj!r}, allowed [{float(iv[0])!r}, {float(iv[1])!r}]'))
                         return
-                elif g is not None:
-                    res.violations.append(('wrong-value', f'party {p.pid} is no receiver but got {g!r}'))
+                elif gj is not None:
+                    res.violations.append(('wrong-value', f'party {p.pid} is no receiver of {st[0]} #{j} but got {gj!r}'))
                     return
 
 
@@ -326,5 +351,11 @@ def gen(rng, cfg, tier='quick', kf=()):
             continue
         prog['tags'] = sorted(tags)
         if ok:
+            vals_ = [st[1] for st in stmts if st[0] not in ('lt', 'le', 'eq', 'ne', 'ge', 'gt')]
+            if cfg.m >= 2 and len(vals_) >= 2 and rng.random() < 0.2:
+                rc = lambda: None if rng.random() < 0.6 else sorted(rng.sample(range(cfg.m), rng.randint(1, cfg.m)))   # noqa: E731
+                x_, y_ = rng.sample(vals_, 2)
+                prog['stmts'] = stmts + [['output_pair', f'p{len(stmts)}', [x_, y_],
+                                          {'receivers': [rc(), rc()], 'yields': rng.choice((0, 0, 1, 3))}]]
             return prog
     return {'family': NAME, 'type': td, 'stmts': [['const', 'x1', [], {'value': 1.5}]], 'outputs': ['x1'], 'receivers': None}
